@@ -26,6 +26,7 @@ type Prog struct {
 	tagName map[int]string
 	ownCache map[string]string
 	relCache map[string]bool
+	fdCache  map[string]*FieldDecl
 }
 
 func loadProg(repo string, patterns []string) *Prog {
